@@ -81,6 +81,10 @@ def vmdk_desc(draw, tier):
             "offset": draw(st.sampled_from([0, 0, 0, 1, 8, 2048])) if typ == "FLAT" and draw(st.booleans()) else None,
             "flat_extra": draw(st.sampled_from([0, 0, 512, 100])) if kind == "flat" else 0,
         })
+    if draw(st.integers(0, 3)) == 0:
+        # a ZERO extent line (no file: the range reads as zeros) of 1..300 sectors somewhere among the others
+        exts.insert(draw(st.integers(0, len(exts))), {"spec": {"kind": "zero", "capacity": draw(st.sampled_from([1, 7, 16, 17, 300])), "layer": 0},
+                                                      "type": "ZERO", "name": f"unused{len(exts)}", "access": "RW", "offset": None, "flat_extra": 0})
     names = set()
     for e in exts:  # unique names
         while e["name"] in names:
@@ -197,6 +201,9 @@ def check(spec) -> Outcome:
     for j, e in enumerate(exts):
         if spec.get("share") == "dup-in-list" and j == len(exts) - 1:
             fh, elay = built[spec["dup"]], dup_lay  # the very same handle once more
+        elif e["spec"]["kind"] == "zero":
+            fh, elay = None, Extents(e["spec"]["capacity"] * 512)
+            elay.put(0, _sp.Zero(e["spec"]["capacity"] * 512))
         else:
             fh, elay, meta = bvmdk.build(e["spec"])
             if j == spec.get("dup"):
@@ -280,6 +287,9 @@ def check(spec) -> Outcome:
     try:
         lines = []
         for e, fh in zip(exts, built):
+            if fh is None:
+                lines.append({"access": e["access"], "sectors": e["spec"]["capacity"], "type": "ZERO", "file": None, "offset": None})
+                continue
             if e.get("flat_extra"):
                 fh.grow(fh.size + e["flat_extra"])
             if e.get("offset"):
@@ -319,7 +329,7 @@ def check(spec) -> Outcome:
                 if dsc.sectors != total // 512:
                     out.fail("mismatch|vmdk-desc-sectors", f"descriptor.sectors {dsc.sectors} != {total // 512}")
                 got = [(x.access_mode, x.sectors, x.type, x.filename) for x in dsc.extents if x.type != "ZERO"]
-                exp = [(e["access"], e["spec"]["capacity"], e["type"], e["name"]) for e in exts]
+                exp = [(e["access"], e["spec"]["capacity"], e["type"], e["name"]) for e in exts if e["type"] != "ZERO"]
                 if got != exp:
                     out.fail("mismatch|vmdk-desc-extents", f"extent lines {got} != {exp}")
         finally:
@@ -338,7 +348,9 @@ def check(spec) -> Outcome:
 def _vmdk_oracle(out, v, spec, lay, total, exts, tag):
     if v.size != total:
         out.fail(f"mismatch|{tag}-size", f"size {v.size} != {total} (sum of extents)")
-    if len(v.disks) != len(exts):
+    if any(e["spec"]["kind"] == "zero" for e in exts):
+        pass  # how a file-less ZERO range is represented among v.disks is the reader's business: size and content decide
+    elif len(v.disks) != len(exts):
         out.fail(f"mismatch|{tag}-count", f"{len(v.disks)} disks opened for {len(exts)} data-bearing extents")
     else:
         acc = 0
